@@ -681,9 +681,21 @@ func flagFollowsMarker(p *Prog, v ssa.Value, marker func(condFact) bool, depth i
 			}
 		}
 		return nFlag > 0
+	case *ssa.Extract:
+		if c, ok := x.Tuple.(*ssa.Call); ok {
+			return flagFollowsMarkerCall(p, c, x.Index, marker, depth)
+		}
 	case *ssa.Call:
+		return flagFollowsMarkerCall(p, x, 0, marker, depth)
+	}
+	return false
+}
+
+// flagFollowsMarkerCall: result #ridx of a helper that is handed the marker test as a bool argument.
+func flagFollowsMarkerCall(p *Prog, x *ssa.Call, ridx int, marker func(condFact) bool, depth int) bool {
+	{
 		h := x.Common().StaticCallee()
-		if h == nil || h.Blocks == nil || h.Signature.Results().Len() != 1 {
+		if h == nil || h.Blocks == nil || h.Signature.Results().Len() <= ridx {
 			return false
 		}
 		for j, a := range x.Common().Args {
@@ -706,7 +718,7 @@ func flagFollowsMarker(p *Prog, v ssa.Value, marker func(condFact) bool, depth i
 			var rets []ssa.Value
 			for _, b := range h.Blocks {
 				if ret, ok := b.Instrs[len(b.Instrs)-1].(*ssa.Return); ok {
-					rets = append(rets, ret.Results[0])
+					rets = append(rets, ret.Results[ridx])
 				}
 			}
 			if len(rets) == 1 && flagFollowsMarker(p, rets[0], inner, depth+1) {
@@ -720,7 +732,7 @@ func flagFollowsMarker(p *Prog, v ssa.Value, marker func(condFact) bool, depth i
 					if !ok {
 						continue
 					}
-					rb, ok := p.revisionBytesOf(ret.Results[0])
+					rb, ok := p.revisionBytesOf(ret.Results[ridx])
 					holds := false
 					for _, cf := range dominatingFacts(b) {
 						if inner(cf) {
